@@ -71,8 +71,27 @@ def gen(seed, nepisodes, prefix='r', big=True):
             npk = rng.choice([1, 1, 2, 3, 5, 8, 20, 40])
             b = batch(rng, ctx, npk, big, 150000)
             ov = rng.randrange(3)
+            if rng.random() < 0.08:
+                # packets of the undefined message type (0) that fit into a frame, e.g. re-encoded after decoding a type-0 frame
+                small = wire.packet(rng, 'generic', rng.randrange(1, max(2, min(40, ctx['max'] - 24))))
+                small['mt'], small['ver'] = 0, b[0]['ver'] if b else 1
+                b = [small] + [p for p in b if 16 + len(p['pl']) <= ctx['max'] - 8][:2]
             ops.append({'op': 'encode', 'batch': b, 'ctx': ctx, 'ov': ov})
         yield {'id': '%s%d' % (prefix, i), 'comp': 'enc', 'ops': ops}
+
+
+def extremes(prefix='x'):
+    """The largest payloads the length field admits, unsegmented and segmented."""
+    rng = random.Random(99)
+    k = 0
+    for n in (65535, 65534, 65521, 65520, 65519, 65518):
+        for mx in (65559, 65558, 65535, 9000, 1500):
+            p = wire.packet(rng, 'generic', n)
+            p['pl'] = [(j * 7 + n) % 256 for j in range(n)]
+            ops = [{'op': 'init', 'dev': 1, 'stream': 1, 'seq': 0},
+                   {'op': 'encode', 'batch': [p], 'ctx': {'min': 0, 'max': mx}, 'ov': k % 3, 'fresh': False}]
+            yield {'id': '%s%d' % (prefix, k), 'comp': 'enc', 'ops': ops}
+            k += 1
 
 
 def wrap_history(prefix='w', ncalls=70, seq0=0, tag='0'):
